@@ -388,6 +388,8 @@ class CommitGraph:
         commit_data = b""
         # Create OID to index mapping for parent lookups
         oid_to_index = {entry.commit_id: i for i, entry in enumerate(sorted_entries)}
+        # Positions of the second and further parents of octopus merges
+        extra_edges: list[int] = []
 
         for entry in sorted_entries:
             # Tree OID (20 bytes)
@@ -404,10 +406,16 @@ class CommitGraph:
                 parent1_pos = oid_to_index.get(entry.parents[0], GRAPH_PARENT_MISSING)
                 parent2_pos = oid_to_index.get(entry.parents[1], GRAPH_PARENT_MISSING)
             else:
-                # More than 2 parents - would need extra edge list chunk
-                # For now, just store first two parents
+                # More than 2 parents: the second slot points into the extra
+                # edge list, which holds every parent but the first; the
+                # last one is flagged.
                 parent1_pos = oid_to_index.get(entry.parents[0], GRAPH_PARENT_MISSING)
-                parent2_pos = oid_to_index.get(entry.parents[1], GRAPH_PARENT_MISSING)
+                parent2_pos = GRAPH_EXTRA_EDGES_NEEDED | len(extra_edges)
+                extra_edges.extend(
+                    oid_to_index.get(parent, GRAPH_PARENT_MISSING)
+                    for parent in entry.parents[1:]
+                )
+                extra_edges[-1] |= GRAPH_LAST_EDGE
 
             commit_data += struct.pack(">LL", parent1_pos, parent2_pos)
 
@@ -431,34 +439,33 @@ class CommitGraph:
         for count in fanout_counts:
             fanout_data += struct.pack(">L", count)
 
-        # Calculate chunk offsets
-        header_size = (
-            8  # signature + version + hash_version + num_chunks + base_graph_count
-        )
-        toc_size = 4 * 12  # 4 entries (3 chunks + terminator) * 12 bytes each
-
-        chunk1_offset = header_size + toc_size  # OID Fanout
-        chunk2_offset = chunk1_offset + len(fanout_data)  # OID Lookup
-        chunk3_offset = chunk2_offset + len(oid_lookup_data)  # Commit Data
-        terminator_offset = chunk3_offset + len(commit_data)
+        chunks = [
+            (CHUNK_OID_FANOUT, fanout_data),
+            (CHUNK_OID_LOOKUP, oid_lookup_data),
+            (CHUNK_COMMIT_DATA, commit_data),
+        ]
+        if extra_edges:
+            edge_data = b"".join(struct.pack(">L", edge) for edge in extra_edges)
+            chunks.append((CHUNK_EXTRA_EDGE_LIST, edge_data))
 
         # Write header
         f.write(COMMIT_GRAPH_SIGNATURE)
         f.write(struct.pack(">B", COMMIT_GRAPH_VERSION))
         f.write(struct.pack(">B", self.hash_version))
-        f.write(struct.pack(">B", 3))  # 3 chunks
+        f.write(struct.pack(">B", len(chunks)))
         f.write(struct.pack(">B", 0))  # 0 base graphs
 
-        # Write table of contents
-        f.write(CHUNK_OID_FANOUT + struct.pack(">Q", chunk1_offset))
-        f.write(CHUNK_OID_LOOKUP + struct.pack(">Q", chunk2_offset))
-        f.write(CHUNK_COMMIT_DATA + struct.pack(">Q", chunk3_offset))
-        f.write(b"\x00\x00\x00\x00" + struct.pack(">Q", terminator_offset))
+        # Write table of contents: one entry per chunk plus a terminator,
+        # 12 bytes each, with offsets counted from the start of the file
+        offset = 8 + (len(chunks) + 1) * 12
+        for chunk_id, data in chunks:
+            f.write(chunk_id + struct.pack(">Q", offset))
+            offset += len(data)
+        f.write(b"\x00\x00\x00\x00" + struct.pack(">Q", offset))
 
         # Write chunks
-        f.write(fanout_data)
-        f.write(oid_lookup_data)
-        f.write(commit_data)
+        for _chunk_id, data in chunks:
+            f.write(data)
 
     def __len__(self) -> int:
         """Return number of commits in the graph."""
